@@ -33,6 +33,14 @@ CHECKS = {
             "the thorough tier cuts the stream at every absolute byte offset (both directions, EOF and reset, sockets and pipes) of seeded short "
             "workloads; quick samples offsets. Oracle: received == sent prefix, EOFError + closed stream on failure, transients never surface.",
             "DESIGN.md C05", ""),
+    "C06": ("exploration",
+            "deterministic simulation: the finite decision table (configuration x name class x object shape x operation) driven as raw requests through two live peers, plus multi-connection isolation histories; oracle = policy model + canary state",
+            "Every decision is sent as a raw handler request (so bytes-typed, non-text and dunder names reach the policy) against a canary whose "
+            "state before/after and returned value show which attribute was really touched; verdict compared with a policy model written from the "
+            "statement. Thorough sweeps all 2^7 switch settings x 4 prefixes x 15 names x 7 shapes x 7 operations completely (a full sweep of a "
+            "finite table along seeded link schedules), quick samples; isolation runs interleave 2-4 differently configured connections incl. "
+            "classic mode and check DEFAULT_CONFIG is untouched.",
+            "DESIGN.md C06", ""),
     "C08": ("exploration",
             "deterministic simulation: seeded request streams between two live peers (or a scripted reference peer); oracle = frame ledger decoded from a wire tap",
             "Seeded search over request streams (sync/async/nested, up to 8 outstanding, value/reference/exception/unencodable outcomes, "
